@@ -150,6 +150,8 @@ class Replayer:
                             out = [ch[0].sum()]
                         elif op == "idx":
                             out = [ch[0][call["k"] - 1]]
+                        elif op == "vmax":
+                            out = [ch[0].max() if len(nodes) % 2 else sg.max(ch[0], None)]
                         elif op == "gather":
                             ix = [[0, 0], [1, 1], [1, 0]][call["k"] - 1]
                             # three public spellings of an integer-sequence index
